@@ -262,7 +262,7 @@ def format_code(
     if minimum_indent == 0:
         source = fixes.add_missing_imports(source)
         if not keep_imports:
-            source = fixes.remove_unused_imports(source)
+            source = fixes.remove_unused_imports(source, preserve=preserve)
 
     source = fixes.sort_imports(source)
 
